@@ -490,12 +490,41 @@ fn format_socket_addr(
 fn parse_socket_addr<T: FromStr>(s: &str) -> Option<(T, u16)> {
     let (bracketed_addr, port) = s.rsplit_once(':')?;
 
-    if !bracketed_addr.starts_with('[') && bracketed_addr.ends_with(']') {
-        return None;
-    }
+    // The address must be enclosed in brackets; nothing may precede `[` or follow `]`.
+    let addr = bracketed_addr.strip_prefix('[')?.strip_suffix(']')?;
 
-    let scion_addr: T = bracketed_addr[1..bracketed_addr.len() - 1].parse().ok()?;
+    let scion_addr: T = addr.parse().ok()?;
     let port: u16 = port.parse().ok()?;
 
     Some((scion_addr, port))
+}
+
+#[cfg(test)]
+mod tests {
+    use super::*;
+
+    #[test]
+    fn parses_displayed_form() {
+        let addr = ScionSocketAddr::from_str("[1-ff00:0:110,10.0.0.1]:1000").unwrap();
+        assert_eq!(addr.to_string(), "[1-ff00:0:110,10.0.0.1]:1000");
+        let addr = ScionSocketAddr::from_str("[1-ff00:0:110,::1]:80").unwrap();
+        assert_eq!(addr.to_string(), "[1-ff00:0:110,::1]:80");
+    }
+
+    #[test]
+    fn rejects_missing_or_misplaced_brackets_without_panicking() {
+        for s in [
+            ":80",
+            "[:80",
+            "]:80",
+            "é:80",
+            "x1-ff00:0:110,10.0.0.1y:1000",
+            "[1-ff00:0:110,10.0.0.1y:1000",
+            "x1-ff00:0:110,10.0.0.1]:1000",
+            "1-ff00:0:110,10.0.0.1:1000",
+        ] {
+            assert!(ScionSocketAddr::from_str(s).is_err(), "{s}");
+            assert!(ScionSocketIpAddr::from_str(s).is_err(), "{s}");
+        }
+    }
 }
